@@ -188,6 +188,9 @@ type Rec struct {
 	Panics  int
 	batch   bool
 	items   [][]byte
+	// PostCall runs after every logged call (used to log what happened to caller memory)
+	PostCall func()
+	NoBatch  bool
 }
 
 func NewRec(d TreeDriver, t int, tr *Trace, seed int64) *Rec {
@@ -321,11 +324,14 @@ func (r *Rec) out() {
 		return
 	}
 	r.Tr.emit()
+	if r.PostCall != nil {
+		r.PostCall()
+	}
 }
 
 // BeginBatch / EndBatch: the read-only calls in between are logged as ONE line.
 func (r *Rec) BeginBatch() {
-	if r.Dead {
+	if r.Dead || r.NoBatch {
 		return
 	}
 	r.batch = true
@@ -395,11 +401,11 @@ func (r *Rec) Pre(ops []opT) {
 				}
 				r.Tr.start("Insert")
 				r.Tr.fInt("k", o.K)
-				r.Tr.fInt("v", v)
+				r.Tr.fInt("v", r.D.NormVal(v))
 				r.tail(pan, false)
 				return
 			}
-			applied = append(applied, done{"I", o.K, v})
+			applied = append(applied, done{"I", o.K, r.D.NormVal(v)})
 		case "D":
 			var res bool
 			if pan := guard(func() { res = r.D.Delete(o.K) }); pan != "" {
@@ -427,7 +433,7 @@ func (r *Rec) Insert(k int) {
 	pan := guard(func() { r.D.Insert(k, v) })
 	r.Tr.start("Insert")
 	r.Tr.fInt("k", k)
-	r.Tr.fInt("v", v)
+	r.Tr.fInt("v", r.D.NormVal(v))
 	r.tail(pan, r.DumpAll)
 }
 
